@@ -24,7 +24,9 @@ RULE = ('Hypothesis RuleBasedStateMachine over one long-lived interpreter '
         'a pool of 3-5 generated decks (Boolean level-0 decks, universe '
         'trees, rectangular and hexagonal lattices, duplicate / unused / '
         'flagged surfaces, multi-particle importance decks, material decks, '
-        'LIKE decks, small shipped example decks) and 5 option sets (one of them --cache); rules: convert(deck, options) '
+        'LIKE decks, small shipped example decks) and 6 option sets (one of '
+        'them --cache, one the same deck with other --lattice ranges); '
+        'rules: convert(deck, options) '
         'in-process, convert_failing(fault-injected deck) which must raise, '
         'convert_default_output (no -o; input files are named with '
         'the extensions .imcnp, .i, none and .v2.inp), reconvert(an earlier '
@@ -51,7 +53,10 @@ OPTION_SETS = [[], ['--skip-deduplication'],
                ['--max-inline-score', '-1'],
                # the disk cache (written next to the input by the first run,
                # read by later ones) must not change what is written
-               ['--cache']]
+               ['--cache'],
+               # the same deck with other --lattice ranges (decks whose
+               # lattices are filled homogeneously accept any ranges)
+               ['@alt-lattice']]
 CACHE_SUFFIXES = ('.volumes.cache', '.surfaces.cache', '.mcnp.cache')
 NAME_SUFFIXES = ('.imcnp', '.i', '', '.v2.inp')
 
@@ -108,6 +113,8 @@ class World:
         shutil.rmtree(self.dir, ignore_errors=True)
 
     def argv(self, i, oi):
+        if OPTION_SETS[oi] == ['@alt-lattice']:
+            return list(self.decks[i].get('alt_argv') or self.decks[i]['argv'])
         return list(self.decks[i]['argv']) + OPTION_SETS[oi]
 
     def fresh_output(self, i, oi, hashseed='0'):
@@ -251,6 +258,24 @@ def pool_deck(draw, tier, homogeneous=False, special=False):
     text = mr.render(deck, expr_style=case.get('style'))
     out = {'text': text, 'argv': mr.argv_of(deck),
            'labels': case['labels']}
+    if deck.get('lattice_opts'):
+        alt = []
+        for a in out['argv']:
+            if ':' in a and ',' in a:
+                head, *rngs = a.split(',')
+                new_r = []
+                for r in rngs:
+                    lo, hi = (int(v) for v in r.split(':'))
+                    if lo == hi:
+                        new_r.append('%d:%d' % (lo, hi))
+                    else:
+                        k = draw(st.integers(0, 2))
+                        new_r.append(['%d:%d' % (lo, lo), '%d:%d' % (hi, hi),
+                                      '%d:%d' % (lo + 1, hi)][k])
+                a = ','.join([head] + new_r)
+            alt.append(a)
+        if alt != out['argv']:
+            out['alt_argv'] = alt
     if deck['transforms'] or any(c.get('trcl') or (c.get('fill') or {}).get('tr')
                                  for c in deck['cells']):
         out['sibling_text'] = mr.render(sibling_deck(deck),
